@@ -291,10 +291,27 @@ func check(c *mon.Case, a0, a1, b0, b1 s2.Point, phi, minLen float64) {
 			kind := "general"
 			if collinear {
 				kind = "collinear"
+				// two endpoints that are different float triples of exactly the same direction: the symbolic
+				// perturbation treats them as distinct points at one location (classified separately)
+				pts := []s2.Point{a0, a1, b0, b1}
+				for i := range pts {
+					for j := i + 1; j < len(pts); j++ {
+						if pts[i] != pts[j] && parallelSameDirection(pts[i], pts[j]) {
+							kind = "collinear-with-two-representations-of-one-direction"
+						}
+					}
+				}
 			}
 			c.Violation("Intersection/order-dependent/"+kind+"/wrong-answer", fmt.Sprintf("Intersection differs under %s: %s vs %s (%.3g rad apart)", names[i], gen.Hex(y), gen.Hex(x), x.Distance(y).Radians()), det(map[string]any{"reordering": names[i]}))
 			break
 		}
 	}
 	_ = rand.Int
+}
+
+// parallelSameDirection: p and q are exact positive multiples of each other.
+func parallelSameDirection(p, q s2.Point) bool {
+	l, _ := ref.Lift(gen.V(p), gen.V(q))
+	x := ref.CrossI(l[0], l[1])
+	return x[0].Sign() == 0 && x[1].Sign() == 0 && x[2].Sign() == 0 && ref.DotI(l[0], l[1]).Sign() > 0
 }
